@@ -75,6 +75,7 @@ def judge(ctx, cases):
         with open(trace, "ab") as fo:
             fo.write(p.stdout)
     order = rest + suspects[:40]
+    ctx._hung_unexamined = ctx.cov.get("cases_not_examined_because_driver_hung", 0)
     reordered = os.path.join(ctx.scratch, "cases_reordered_%d.ndjson" % ctx._n)
     open(reordered, "wb").write(b"".join(all_lines[i] for i in order))
     cases = reordered
@@ -85,6 +86,9 @@ def judge(ctx, cases):
     ctx.cov["model_drift_cases"] = ctx.cov.get("model_drift_cases", 0) + res["hits"].get("drift", 0)
     recs = []
     if not res["bad"]:
+        if getattr(ctx, "_hung_unexamined", 0):
+            # the driver gave up on part of the batch and no isolated case shows a deviation: that is not a pass
+            raise Infra("driver kept hanging, %d cases were not examined and no hanging call could be isolated" % ctx._hung_unexamined)
         return recs
     clines = open(cases, "rb").readlines()
     for b in res["bad"]:
@@ -100,6 +104,8 @@ def judge(ctx, cases):
                                      "calls": sorted(set(b["as"]))},
                          "case": {"tree": case["tree"], "o": case["o"], "p": case.get("p") or []},
                          "detail": b.get("m") or None})
+    if getattr(ctx, "_hung_unexamined", 0) and not any(r["kind"].endswith("-hang") for r in recs):
+        raise Infra("driver kept hanging, %d cases were not examined and no hanging call could be isolated" % ctx._hung_unexamined)
     return recs
 
 
